@@ -1,4 +1,5 @@
 """C14 — session database: codec correspondence, tree-operation histories, oracle."""
+import json
 import re
 import common
 from common import enc_str, enc_list, dec_list, dec_str
@@ -18,6 +19,14 @@ MODELLED = ("modelled: lv_pack/lv_unpack, Database.branch_key/unpack_branch_key/
 ASSUMPTIONS = ["uuid1 grant ids are fresh", "Python int() leniencies in a length prefix (sign, underscore, non-ASCII digits) are outside the model domain"]
 
 _server = None
+_mirror = None
+
+
+def mirror_server():
+    global _mirror
+    if _mirror is None:
+        _mirror = opbase.make_op()
+    return _mirror
 
 
 def server():
@@ -95,7 +104,9 @@ def cases(rng, tier):
                 ops.append(["deletesub", u, c, g, 1])
             else:
                 ops.append(["flush"])
-        out.append({"t": "hist", "ops": ops})
+        # a second, LIVE session manager kept in step by export / import after every operation (a worker re-synchronised from the
+        # other worker's dump): what it holds must be the exported tree, nothing more
+        out.append({"t": "hist", "ops": ops, "mirror": rng.random() < 0.4})
     # the tree as the ENDPOINTS build it: logins (authorization + code redemption), token exchange by the owning or by another client
     # (which adds an exchange grant under that client), exchange of exchanged tokens, client-session revocation
     for _ in range(12 * n):
@@ -297,10 +308,21 @@ def impl(c):
     if t == "hist":
         hh = _H()
         steps = []
+        m2 = None
+        if c.get("mirror"):
+            m2 = mirror_server().context.session_manager
+            m2.flush()
         for op in c["ops"]:
             try:
                 hh.do(op)
                 steps.append({"r": "ok", "db": hh.dump()})
+                if m2 is not None:
+                    m2.load(hh.sm.dump())
+                    sm1, hh.sm = hh.sm, m2
+                    try:
+                        steps[-1]["mirror"] = hh.dump()
+                    finally:
+                        hh.sm = sm1
             except Exception as e:
                 steps.append({"r": "exc", "cls": type(e).__name__})
                 break
@@ -462,6 +484,11 @@ def oracle(c, obs):
                 break
         return v
     if t == "hist":
+        for i, st in enumerate(obs["steps"]):
+            if "mirror" in st and sorted(map(json.dumps, st["mirror"])) != sorted(map(json.dumps, st["db"])):
+                a, b = {r[0] for r in st["db"]}, {r[0] for r in st["mirror"]}
+                v.append({"cls": "imported-tree-differs", "step": i, "op": c["ops"][i][0], "only_in_import": sorted(b - a)[:3], "missing_in_import": sorted(a - b)[:3]})
+                return v
         idents = set()
         for op in c["ops"]:
             if len(op) > 2:
